@@ -56,6 +56,7 @@ type Run struct {
 	nViol   int
 	maxSamples int
 	only    string // VERIF_CASE: run only this case id
+	completed bool
 	t       *testing.T
 }
 
@@ -250,7 +251,7 @@ func (r *Run) Finish() {
 	r.mu.Lock()
 	defer r.mu.Unlock()
 	r.p.WallS = time.Since(r.start).Seconds()
-	r.p.Done = true
+	r.p.Done = r.completed
 	sort.Strings(r.p.Required)
 	b, _ := json.MarshalIndent(&r.p, "", " ")
 	path := filepath.Join(r.outDir, "parts", fmt.Sprintf("%s-%d.json", r.p.Property, r.p.Child))
@@ -272,4 +273,13 @@ func (r *Run) Guard(caseID, key string, witness any, f func()) (panicked bool) {
 	}()
 	f()
 	return false
+}
+
+// Complete marks that the check ran all its planned cases (called as the last
+// statement of the test function; an aborted test leaves it unset and the
+// aggregator then treats the child as having no verdict).
+func (r *Run) Complete() {
+	r.mu.Lock()
+	r.completed = true
+	r.mu.Unlock()
 }
